@@ -20,6 +20,7 @@ RULE = (
     "never-run set). A case is non-trivial when at least 2 node functions were observed entering and the "
     "result has at least one value; distinct = distinct canonical shape (kinds, arities, wiring, defaults, bindings, "
     "provided set, selection)."
+    ' Also: two or three readers of ONE input name whose signature defaults compare equal but are different values (1 / True / 1.0, [1] / [True]), nobody supplying the name, every node order, one reader optionally nested: each node is evaluated with its own default.'
 )
 ASSUMPTIONS = [
     "generated node functions are pure symbolic-term constructors; RefEval never imports hypergraph",
